@@ -51,7 +51,11 @@ Definition workers_flush_before_leaving : bool :=
   has "self._update_progress_bar(force_update=True)" handle_poison_pill_body &&
   has "  self._update_progress_bar(force_update=True)" worker_run_body &&
   has "        if not is_apply_func:" worker_run_body && has "          self._update_progress_bar()" worker_run_body.
-Definition counters_zeroed_per_call : bool := has "  self._tasks_completed_array[:] = [0] * self.n_jobs" reset_progress_body_obs.
+(* a call starts from the initial state of the Progress model (counters 0, no completion / shutdown signal pending)
+   because reset_progress, run at the end of every call, zeroes the counters and clears both flags *)
+Definition counters_zeroed_per_call : bool :=
+  has "  self._tasks_completed_array[:] = [0] * self.n_jobs" reset_progress_body_obs &&
+  has "self.clear_progress_bar_shutdown()" reset_progress_body_obs && has "self.clear_progress_bar_complete()" reset_progress_body_obs.
 
 (* ---- (1a) insights counters over the Core log ---- *)
 Definition is_task (e : event) : bool := match ev_kind e with KTask _ => true | _ => false end.
